@@ -7,7 +7,7 @@ RULE = ("explicit-state BFS over well-formed edit histories of a real WaterNetwo
         "pattern P, curves H,G (HEAD) and V (VOLUME), source s, control c; operations add_junction/tank/reservoir/pipe/"
         "pump(HEAD|POWER, speed pattern)/valve(TCV|PRV)/pattern/curve/source/control, remove_node/link (with and without "
         "with_control)/pattern/curve/source/control, reassignment of start/end node, speed pattern, pump curve, volume curve, "
-        "head pattern, add_demand; start states: empty model, 'pumpnet' (3 nodes, pattern-using pump + pipe) and 'rich' "
+        "head pattern, add_demand; start states: empty model, 'pumpnet' (3 nodes, pattern-using pump + pipe), 'roles' (untyped curve used as pump curve) and 'rich' "
         "(tank with volume curve, reservoir with head pattern, source, control).  Enabledness and the expected outcome "
         "(succeed / refuse) come from a plain-dict reference; the invariant compares every public view with it in every "
         "state.  A state is distinct by the canonical form of all observable views; non-trivial transition = a removal or "
@@ -18,7 +18,7 @@ ASSUMPTIONS = ["ill-formed calls (duplicate names, references to missing element
 
 NODES = ["A", "B", "C"]
 LINKS = ["p", "q"]
-HEADC = ["H", "G"]
+HEADC = ["H", "G", "U", "V"]      # curves a head pump may be switched to: two HEAD curves, an untyped one, a VOLUME one
 PAIRS = [("A", "B"), ("B", "A"), ("A", "C"), ("B", "C"), ("C", "B")]
 
 
@@ -28,7 +28,8 @@ class Ref(object):
         self.nodes = {}      # name -> {"t": junc|tank|res, "pats": [..], "vc": name|None, "hp": name|None}
         self.links = {}      # name -> {"t": pipe|hpump|ppump|TCV|PRV, "a":, "b":, "sp": pat|None, "cv": curve|None}
         self.pats = set()
-        self.curves = {}     # name -> type
+        self.curves = {}     # name -> declared type (None = untyped)
+        self.croles = {}     # name -> typed sets the curve is filed under (declared type + every role it was ever used in)
         self.sources = {}    # name -> (node, pat)
         self.controls = {}   # name -> (link, node|None)
 
@@ -94,6 +95,8 @@ class Ref(object):
                                 ops.append(["add_hpump", l, a, b, "H", None])
                                 if P:
                                     ops.append(["add_hpump", l, a, b, "H", "P"])
+                            if "U" in self.curves:
+                                ops.append(["add_hpump", l, a, b, "U", None])
                             ops.append(["add_ppump", l, a, b, None])
                             if P:
                                 ops.append(["add_ppump", l, a, b, "P"])
@@ -125,7 +128,7 @@ class Ref(object):
             ops.append(["add_pattern", "P"])
         else:
             ops.append(["remove_pattern", "P"])
-        for c, t in (("H", "HEAD"), ("G", "HEAD"), ("V", "VOLUME")):
+        for c, t in (("H", "HEAD"), ("G", "HEAD"), ("V", "VOLUME"), ("U", None)):
             if c not in self.curves:
                 if c != "G" or "H" in self.curves:     # G only as a second head curve
                     ops.append(["add_curve", c, t])
@@ -161,6 +164,7 @@ class Ref(object):
             self.links[op[1]] = {"t": "pipe", "a": op[2], "b": op[3], "sp": None, "cv": None}
         elif k == "add_hpump":
             self.links[op[1]] = {"t": "hpump", "a": op[2], "b": op[3], "cv": op[4], "sp": op[5]}
+            self.croles[op[4]].add("HEAD")
         elif k == "add_ppump":
             self.links[op[1]] = {"t": "ppump", "a": op[2], "b": op[3], "cv": None, "sp": op[4]}
         elif k == "add_valve":
@@ -169,6 +173,7 @@ class Ref(object):
             self.pats.add(op[1])
         elif k == "add_curve":
             self.curves[op[1]] = op[2]
+            self.croles[op[1]] = {op[2]} if op[2] else set()
         elif k == "add_source":
             self.sources[op[1]] = (op[2], op[3])
         elif k == "add_control":
@@ -187,6 +192,7 @@ class Ref(object):
             self.links[op[1]]["sp"] = op[2]
         elif k == "set_pump_curve":
             self.links[op[1]]["cv"] = op[2]
+            self.croles[op[2]].add("HEAD")       # the documented bookkeeping: used as a pump curve => listed as one
         elif k == "remove_node":
             n, wc = op[1], op[2]
             if self.node_users(n):
@@ -213,6 +219,7 @@ class Ref(object):
             if self.curve_users(op[1]):
                 return "refuse"
             del self.curves[op[1]]
+            del self.croles[op[1]]
         elif k == "remove_source":
             del self.sources[op[1]]
         elif k == "remove_control":
@@ -243,8 +250,10 @@ class Ref(object):
         e["usage_node"] = {n: sorted(u[1] for u in self.node_users(n)) for n in self.nodes if self.node_users(n)}
         e["usage_pattern"] = {p: sorted(u[1] for u in self.pat_users(p)) for p in self.pats if self.pat_users(p)}
         e["usage_curve"] = {c: sorted(u[1] for u in self.curve_users(c)) for c in self.curves if self.curve_users(c)}
-        e["curve_types"] = {"Pump": sum(1 for t in self.curves.values() if t == "HEAD"),
-                            "Volume": sum(1 for t in self.curves.values() if t == "VOLUME"), "Efficiency": 0, "Headloss": 0}
+        e["typed"] = {"pump": sorted(c for c, r in self.croles.items() if "HEAD" in r),
+                      "volume": sorted(c for c, r in self.croles.items() if "VOLUME" in r), "efficiency": [], "headloss": [],
+                      "untyped": sorted(c for c, r in self.croles.items() if not r)}
+        e["curve_types"] = {"Pump": len(e["typed"]["pump"]), "Volume": len(e["typed"]["volume"]), "Efficiency": 0, "Headloss": 0}
         return e
 
 
@@ -261,6 +270,10 @@ def start_model(label):
         pre = [["add_pattern", "P"], ["add_curve", "V", "VOLUME"], ["add_reservoir", "A", "P"], ["add_junction", "B", None],
                ["add_tank", "C", "V"], ["add_ppump", "p", "A", "B", "P"], ["add_pipe", "q", "B", "C"], ["add_source", "s", "B", "P"],
                ["add_control", "c", "q", "C"]]
+    elif label == "roles":
+        # curves used in a role that differs from their declared type: an untyped curve as pump curve
+        pre = [["add_curve", "U", None], ["add_curve", "H", "HEAD"], ["add_reservoir", "A", None], ["add_junction", "B", None],
+               ["add_hpump", "p", "A", "B", "U", None]]
     elif label != "empty":
         raise KeyError(label)
     for op in pre:
@@ -291,7 +304,7 @@ def do(wn, op):
     elif k == "add_pattern":
         wn.add_pattern(op[1], [1.0, 2.0])
     elif k == "add_curve":
-        wn.add_curve(op[1], op[2], [(0.0, 40.0), (0.05, 30.0), (0.1, 10.0)] if op[2] == "HEAD" else [(0.0, 0.0), (5.0, 500.0)])
+        wn.add_curve(op[1], op[2], [(0.0, 40.0), (0.05, 30.0), (0.1, 10.0)] if op[2] in ("HEAD", None) else [(0.0, 0.0), (5.0, 500.0)])
     elif k == "add_source":
         wn.add_source(op[1], op[2], "CONCEN", 1.0, op[3])
     elif k == "add_control":
@@ -373,6 +386,9 @@ def observe(wn):
         o["usage:" + rn] = _try(lambda: {str(k): sorted([str(u[0]), str(u[1])] for u in v) for k, v in r.usage() if len(v) > 0})
         o["orphaned:" + rn] = _try(lambda: sorted(str(x) for x in r.orphaned()))
         o["unused:" + rn] = _try(lambda: sorted(str(x) for x in r.unused()))
+    for k in ("pump", "efficiency", "headloss", "volume", "untyped"):
+        o["typed:" + k] = _try(lambda: sorted(getattr(wn.curves, k + "_curve_names")))
+        o["typediter:" + k] = _try(lambda: sorted(n for n, c in getattr(wn.curves, k + "_curves")() if c.name == n))
     o["todict"] = _try(lambda: json.dumps(wn.to_dict(), sort_keys=True, default=str)[:0] or "ok")
     return o
 
@@ -430,6 +446,10 @@ def compare(o, ref):
         exp_unused = sorted(set(e[rn]) - set(e["usage_" + rn]))
         if o["unused:" + rn] != exp_unused:
             bad("unused:%s" % rn, "%s registry unused() is %s, expected %s" % (rn, o["unused:" + rn], exp_unused))
+    for k in ("pump", "efficiency", "headloss", "volume", "untyped"):
+        if o["typed:" + k] != e["typed"][k] or o["typediter:" + k] != e["typed"][k]:
+            bad("typed-curves:%s" % k, "wn.curves.%s_curve_names is %s and %s_curves() yields %s, expected %s" % (
+                k, o["typed:" + k], k, o["typediter:" + k], e["typed"][k]))
     if o["todict"] != "ok":
         bad("to_dict", "to_dict() raises %s" % o["todict"])
     return v
@@ -512,10 +532,10 @@ def run_case(spec):
 
 def run(run_, tier, seed):
     from .. import bfs
-    depth = {"quick": {"empty": 4, "pumpnet": 3, "rich": 3}, "thorough": {"empty": 6, "pumpnet": 5, "rich": 4}}[tier]
+    depth = {"quick": {"empty": 4, "pumpnet": 3, "rich": 3, "roles": 3}, "thorough": {"empty": 6, "pumpnet": 5, "rich": 4, "roles": 4}}[tier]
     tot = {"states": 0, "transitions": 0, "traces_validated_against_impl": 0, "max_depth": 0, "levels": {}}
     samples = []
-    for label in ("empty", "pumpnet", "rich"):
+    for label in ("empty", "pumpnet", "rich", "roles"):
         bfs.search(run_, __import__("vf.props.c14", fromlist=["x"]), [label], depth[label], seed=seed)
         for k in ("states", "transitions", "traces_validated_against_impl"):
             tot[k] += run_.extra[k]
